@@ -157,8 +157,7 @@ Section P.
     g_self_free D x e = true -> g_disjoint fi r D x e = true ->
     nm_exec fi r l = after r x (pw_sel r (stripped D x e)).
   Proof.
-    intros Hpw Hp Hs Hd. unfold print_stmt in Hp.
-    destruct (negb (g_printable e)); [discriminate|]. rewrite Hpw in Hp.
+    intros Hpw Hp Hs Hd. unfold print_stmt in Hp. rewrite Hpw in Hp.
     unfold print_piecewise in Hp. fold (stripped D x e) in Hp.
     unfold g_self_free, g_disjoint, several_ifs in Hs, Hd. rewrite Hpw in Hs, Hd.
     destruct (stripped D x e) as [|[c v] [|p2 tl]] eqn:Es; [discriminate| |].
@@ -228,8 +227,7 @@ Section P.
         * exists v. unfold upd. rewrite Pos.eqb_refl. split; [exact He | reflexivity].
         * intros y Hy. unfold upd. apply Pos.eqb_neq in Hy. rewrite Hy. reflexivity.
     - (* plain assignment *)
-      unfold print_stmt in Hp. destruct (negb (g_printable e)); [discriminate|].
-      rewrite Hpw in Hp. inversion Hp; subst.
+      unfold print_stmt in Hp. rewrite Hpw in Hp. inversion Hp; subst.
       cbn [nm_exec nm_exec1 exec_simple]. eexists; split; [reflexivity|]. split.
       + exists v. unfold upd. rewrite Pos.eqb_refl. split; [exact He | reflexivity].
       + intros y Hy. unfold upd. apply Pos.eqb_neq in Hy. rewrite Hy. reflexivity.
